@@ -1,5 +1,6 @@
 import StunVerif.Props.C06
 import StunVerif.Props.C06Sched
+import StunVerif.Props.SrcFnAgent
 #print axioms StunVerif.C06.req_early
 #print axioms StunVerif.C06.req_retransmit
 #print axioms StunVerif.C06.req_timeout
@@ -19,3 +20,14 @@ import StunVerif.Props.C06Sched
 #print axioms StunVerif.C06.cancel_rtx_silent
 #print axioms StunVerif.C06.polls_eq_rfc
 #print axioms StunVerif.C06.configured_udp_polls
+#print axioms StunVerif.SrcFnAgent.src_reqPoll
+#print axioms StunVerif.SrcFnAgent.src_validatedPeer
+#print axioms StunVerif.SrcFnAgent.src_takeOutstanding
+#print axioms StunVerif.SrcFnAgent.remove_of_lookup_none
+#print axioms StunVerif.SrcFnAgent.src_handleStun
+#print axioms StunVerif.SrcFnAgent.src_send_request
+#print axioms StunVerif.SrcFnAgent.src_send_other
+#print axioms StunVerif.SrcFnAgent.src_cancel
+#print axioms StunVerif.SrcFnAgent.src_cancelRetransmissions
+#print axioms StunVerif.SrcFnAgent.foldl_add_eq_sum
+#print axioms StunVerif.SrcFnAgent.src_configureTimeout
